@@ -448,10 +448,10 @@ pub open spec fn wf_paged(t: StructureTag) -> bool {
 //@ closure at="|t| t.expect_primitive()" params="t: StructureTag" ret="(o: Option<Vec<u8>>)"
             ensures o == (match t.payload { PL::P(i) => Some(i), PL::C(_) => None::<Vec<u8>> })
 //@ spec
-    requires parse_spec(val@) matches Some(t) && wf_paged(t), //# C19.paged_results_response_must_be_well_formed_else_panics_by_contract
+    requires parse_spec(val@) matches Some(t) && wf_paged(t), //# C16+C19.paged_results_response_must_be_well_formed_else_panics_by_contract
     ensures
-        r.size == (be_uint(parse_spec(val@)->0.payload->C_0@[0].payload->P_0@) as i32), //# C19.paged_results_size_is_the_integer
-        r.cookie@ == parse_spec(val@)->0.payload->C_0@[1].payload->P_0@, //# C19.paged_results_cookie_as_sent
+        r.size == (be_uint(parse_spec(val@)->0.payload->C_0@[0].payload->P_0@) as i32), //# C16+C19.paged_results_size_is_the_integer
+        r.cookie@ == parse_spec(val@)->0.payload->C_0@[1].payload->P_0@, //# C16+C19.paged_results_cookie_as_sent
 //@end
 
 // ---- C19 round trip for PagedResults, a lemma over the two contracts above and the lber contract:
